@@ -55,7 +55,8 @@ def verify_contract(repo: str, con: Any, contracts_by_target: dict[str, Any], mo
         "assumptions": [], "covers": [], "digest": None, "loops": 0, "outcomes": {},
     }
     world = World(repo, model_paths)
-    ctx = Ctx(timeout_ms)
+    # a contract whose obligations are known to be slow for the solver (symbolic modulus) asks for more time
+    ctx = Ctx(max(timeout_ms, int(con.__dict__.get("prove_timeout_s", 0) * 1000)))
     budget = con.__dict__.get("budget_s", 150 if timeout_ms <= 10000 else 900)
     ctx.deadline = time.time() + budget
     ctx.name_prefix = f"{con.target}{'' if mode == 'main' else '{' + mode + '}'}"
